@@ -257,6 +257,73 @@ def generate_catalogue(run, model=True):
     return groups, records
 
 
+def _step(g, k):
+    d, ri, x, _ = g.raw[k]
+    return {"dir": d, "type_expr": src_ty(g.roots[ri], g.env), "type": repr(g.pytys[ri]), "input": repr(x)[:300],
+            "value_pickle": _pickle(x)}
+
+
+def warm_derived(run, groups, max_fail=6):
+    """coremodel.warm_pass for the derived groups: every recorded call of a group again in ONE process without clearing
+    caches in between (forwards, then backwards) must give the outcome it gave cold.  A failure is shrunk to a two-call
+    history and reported with the module source, so that the replay defines the classes by their derivations."""
+    import time
+    t0 = time.time()
+    calls, fails, skipped = 0, [], 0
+
+    def agree(a, b):
+        return a[0] == b[0] and (coreprop.same(a[1], b[1]) if a[0] == "ok" else a[1] == b[1])
+
+    for g in groups:
+        raw = getattr(g, "raw", None)
+        if not raw:
+            continue
+        if coremodel.union_spelling_collision(g.pytys):
+            skipped += 1
+            continue
+        order = list(range(len(raw))) + list(reversed(range(len(raw))))
+        impl.clear_caches()
+        hist, bad = [], None
+        for idx in order:
+            d, ri, x, cold = raw[idx]
+            warm = g.observe(d, ri, x, clear=False)
+            calls += 1
+            hist.append(idx)
+            if not agree(cold, warm):
+                bad = (idx, cold, warm)
+                break
+        if bad is None:
+            continue
+        idx, cold, warm = bad
+        steps = hist
+        for j in dict.fromkeys(hist[:-1]):                      # one earlier call that is enough?
+            if _pickle(raw[j][2]) is None:
+                continue
+            impl.clear_caches()
+            g.observe(raw[j][0], raw[j][1], raw[j][2], clear=False)
+            w2 = g.observe(raw[idx][0], raw[idx][1], raw[idx][2], clear=False)
+            calls += 2
+            if not agree(cold, w2):
+                steps, warm = [j, idx], w2
+                break
+        fails.append({
+            "kind": "history", "key": f"history|{g.env['module']}|{raw[idx][0]}|{raw[idx][1]}",
+            "symptom": "a call gives another outcome after earlier calls in the same process than it gives cold "
+                       "(caches cleared only before the first call of the history)",
+            "module_src": g.src, "module_name": g.env["module"], "derive": {str(k): v for k, v in (g.env.get("derive") or {}).items()},
+            "steps": [_step(g, k) for k in steps[-12:]], "input": repr(raw[idx][2])[:300],
+            "cold": repr(cold[1])[:400], "warm": repr(warm[1])[:400]})
+        if len(fails) >= max_fail:
+            break
+    impl.clear_caches()
+    run.record_corr("warm-replay[c13-derived](every case of the derived groups again without clearing caches, forwards then "
+                    "backwards, vs its cold outcome)", calls,
+                    [{k: v for k, v in f.items() if k not in ("module_src", "steps")} for f in fails],
+                    dist={"groups": len(groups), "groups_skipped_for_union_spelling_collision": skipped,
+                          "seconds": round(time.time() - t0, 1)})
+    _state["history_fails"] = fails
+
+
 def derivation_dist(groups):
     d = {}
     for g in groups:
@@ -517,7 +584,11 @@ def correspond(run: lib.Run):
             f"{len(records)} + {len(dr)} + {len(cr)} valid values")
     groups, records = groups + dg + cg, records + dr + cr
     _state["groups"], _state["records"] = groups, records
-    coremodel.warm_replay(run, groups, "c13")      # every call again on warm caches: pass-through must hold for the k-th call too
+    # every call again on warm caches: pass-through must hold for the k-th call too.  The shared layer rebuilds a
+    # failing group from env["defs"] alone (coremodel.replay_warm), which would lose the class derivations: the
+    # derived groups get the same pass here, with replays that carry the module source (kind "history")
+    coremodel.warm_replay(run, [g for g in groups if not isinstance(g, Group13)], "c13")
+    warm_derived(run, [g for g in groups if isinstance(g, Group13)])
     evaluate(run, groups, records, "c13")
     run.log("model evaluated")
     # PassLaws / IdemLaws are theorems of the scalar model (Props/LeafBridge.v: C13_passthrough_from_scalar_model ...);
@@ -559,9 +630,50 @@ def payload(kind, g, ri, x, got, extra=None):
     return p
 
 
+def _history_of(g, rec, t, trace, x):
+    """u(x) did not return x after the calls of `trace` (same process, caches cleared before the first).  Does it when
+    called cold?  Then the failure needs its history: -> a "history" payload (shrunk to one earlier call where that is
+    enough), whose replay runs those calls; None: the failure is there cold as well (ordinary payload)."""
+    passes = lambda r: r[0] == "ok" and G.same(r[1], x)
+    impl.clear_caches()
+    if not passes(attempt(t, x)):
+        return None
+    steps = None
+    for k in range(len(trace)):
+        if any(trace[k] is e for e in trace[:k]):
+            continue
+        impl.clear_caches()
+        attempt(t, trace[k])
+        r = attempt(t, x)
+        if not passes(r):
+            steps = [trace[k], x]
+            break
+    if steps is None:
+        impl.clear_caches()
+        for e in trace:
+            attempt(t, e)
+        r = attempt(t, x)
+        if passes(r):
+            return None              # not reproducible from this record's own calls
+        steps = list(trace[-11:]) + [x]
+    if any(_pickle(e) is None for e in steps):
+        return None
+    t_expr = src_ty(g.roots[rec.ri], g.env)
+    return {"kind": "history", "key": f"history:{t_expr}:{repr(x)[:100]}",
+            "symptom": "unmarshal(T, v) returns v when called cold, and something else after earlier calls in the same "
+                       "process (caches cleared only before the first call of the history)",
+            "module_src": g.src, "module_name": g.env["module"], "type": repr(g.pytys[rec.ri]),
+            "steps": [{"dir": "u", "type_expr": t_expr, "input": repr(e)[:300], "value_pickle": _pickle(e)} for e in steps],
+            "input": repr(x)[:400], "cold": repr(x)[:400], "warm": (repr(r[1:]) if r[0] != "ok" else repr(r[1]))[:400]}
+
+
 def check_record(rec, stats, fails):
+    """the statement on one generated value and its input pool.  The caches are cleared once per record, so the calls of
+    a record form a history (the k-th call for the same classes): a failure that is not there cold is reported with
+    the calls it needs (kind "history")."""
     g, t = rec.group, rec.pytype
     impl.clear_caches()
+    trace = []
     # (a) pass-through
     stats["passthrough"] += 1
     if not G.Validity(g.env, g.mod)(rec.tdesc, rec.value):
@@ -569,9 +681,11 @@ def check_record(rec, stats, fails):
     r = attempt(t, rec.value)
     if r[0] != "ok" or not G.same(r[1], rec.value):
         fails.append(payload("passthrough", g, rec.ri, rec.value, repr(r[1:])[:400] if r[0] != "ok" else repr(r[1])[:400]))
+    trace.append(rec.value)
     # (b) idempotence on the whole pool
     for tag, x in rec.inputs:
         r1 = attempt(t, x)
+        trace.append(x)
         stats["pool_inputs"] += 1
         if r1[0] != "ok":
             continue
@@ -579,6 +693,14 @@ def check_record(rec, stats, fails):
         y = r1[1]
         r2 = attempt(t, y)
         if r2[0] == "ok" and G.same(r2[1], y):
+            trace.append(y)
+            continue
+        h = _history_of(g, rec, t, trace, y)
+        if h is not None:
+            stats["history_fail"] += 1
+            fails.append(h)
+            impl.clear_caches()
+            trace = []
             continue
         region = region_of(g, rec.tdesc, y)
         stats["idem_fail_" + (region or "inside")] += 1
@@ -586,6 +708,7 @@ def check_record(rec, stats, fails):
                              f"u(x) = {y!r}; u(u(x)) = {r2[1:] if r2[0] != 'ok' else r2[1]!r}"[:500],
                              {"tag": tag, "region": region,
                               "key": f"idempotence:{region}:{src_ty(g.roots[rec.ri], g.env)}:{repr(x)[:100]}"}))
+        trace.append(y)
 
 
 def run_corpus(stats, fails):
@@ -603,7 +726,7 @@ def run_corpus(stats, fails):
 def search(run: lib.Run, broken):
     import collections
     stats = collections.Counter()
-    fails = list(_state.get("law_fails", []))
+    fails = list(_state.get("law_fails", [])) + list(_state.get("history_fails", []))
     run_corpus(stats, fails)
     for rec in _state.get("records", []):
         check_record(rec, stats, fails)
@@ -652,6 +775,8 @@ def _materialise(p):
 
 def replay(p):
     """{'fails': bool, ...}: re-runs one reported case on the implementation"""
+    if p.get("kind") == "history":
+        return replay_history(p)
     if p.get("kind") == "obligation-or-correspondence-broken" or "type_expr" not in p:
         return {"fails": False, "note": "nothing to replay (no failing input recorded)"}
     mod, t, v = _materialise(p)
@@ -675,6 +800,49 @@ def replay(p):
         return {"fails": not (r2[0] == "ok" and G.same(r2[1], r1[1])), "first": repr(r1[1])[:300], "second": repr(r2[1:])[:300]}
     finally:
         impl.drop_module(mod.__name__)
+
+
+def replay_history(p):
+    """the last call of the history cold vs after the earlier calls (caches cleared once, before the first)"""
+    from typelib import marshals
+    from universe import PRELUDE
+    name, src = p["module_name"], p["module_src"]
+    if not src.startswith(PRELUDE):
+        src = PRELUDE + "import re\n" + src
+    impl.drop_module(name)
+    mod = impl.new_module(name, src)
+    try:
+        steps = []
+        for st in p["steps"]:
+            if st.get("value_expr") is not None:
+                x = eval(st["value_expr"], mod.__dict__)
+            elif st.get("value_pickle") is not None:
+                x = pickle.loads(base64.b64decode(st["value_pickle"]))
+            else:
+                return {"fails": False, "note": "an input of the history cannot be rebuilt (not picklable)"}
+            steps.append((st["dir"], eval(st["type_expr"], mod.__dict__), x))
+
+        def call(d, t, x):
+            if d == "u":
+                return attempt(t, x)[:2]
+            try:
+                with warnings.catch_warnings():
+                    warnings.simplefilter("ignore")
+                    return ("ok", marshals.marshal(x, t=t))
+            except RecursionError:
+                return ("raise", "ERecursion")
+            except BaseException as e:       # noqa: BLE001
+                return ("raise", impl.exc_kind(e))
+        impl.clear_caches()
+        cold = call(*steps[-1])
+        impl.clear_caches()
+        warm = None
+        for st in steps:
+            warm = call(*st)
+        ok = cold[0] == warm[0] and (coreprop.same(cold[1], warm[1]) if cold[0] == "ok" else cold[1] == warm[1])
+        return {"fails": not ok, "cold": repr(cold)[:300], "after_history": repr(warm)[:300]}
+    finally:
+        impl.drop_module(name)
 
 
 def reproduces(entry) -> bool:
